@@ -201,10 +201,10 @@ Definition tel_run (t : tel_tests) : option (ctrl_act * bool (* data gets c *) *
                 end in
       let ra := match calls_of s with
                 | [] => RNone
-                | [x] => if String.eqb x "t.c.Write([]byte{iac, will, c})" then RWill
-                         else if String.eqb x "t.c.Write([]byte{iac, wont, c})" then RWont
-                         else if String.eqb x "t.c.Write([]byte{iac, do, c})" then RDo
-                         else if String.eqb x "t.c.Write([]byte{iac, dont, c})" then RDont else RBad
+                | [x] => if String.eqb x "t.c.Write([]byte{iac, will, c}) -> _, writeErr" then RWill
+                         else if String.eqb x "t.c.Write([]byte{iac, wont, c}) -> _, writeErr" then RWont
+                         else if String.eqb x "t.c.Write([]byte{iac, do, c}) -> _, writeErr" then RDo
+                         else if String.eqb x "t.c.Write([]byte{iac, dont, c}) -> _, writeErr" then RDont else RBad
                 | _ => RBad
                 end in
       match da with Some d => Some (ca, d, ra) | None => None end
